@@ -262,3 +262,12 @@ class Ctx:
             from crosshair.tracers import NoTracing
             return NoTracing()
         return contextlib.nullcontext()
+
+    def real(self, fn, *a):
+        """Call into the code under test from monitor code that runs untraced."""
+        if self.symbolic:
+            from crosshair.tracers import ResumedTracing, is_tracing
+            if not is_tracing():
+                with ResumedTracing():
+                    return self.z(fn(*a))
+        return self.z(fn(*a))
